@@ -52,6 +52,7 @@ Ev == [ev |-> "c20", text |-> text, cols |-> cols, o |-> o, lg |-> gaps[1], mg |
        status |-> (IF fault = "none" THEN "ok" ELSE "panic")]
 AllOk(cs) == \A x \in 1..Len(cs) : cs[x].ok \/ (PrintT(<<"FAILED", cs[x].p, cs[x].c, cs[x].r>>) /\ FALSE)
 PropColumns == pc = "done" => AllOk(Judge_c20(Ev))
-Terminates == <>(pc = "done" \/ pc = "type")
+\* once a call has begun it returns (checked under weak fairness of the step actions: the algorithms terminate)
+Terminates == (pc # "type") ~> (pc = "done")
 Emit == pc = "done" => PrintT(<<"REPLAY", ToJson([k |-> "c20", text |-> text, cols |-> cols, o |-> o, lg |-> gaps[1], mg |-> gaps[2], rg |-> gaps[3]])>>)
 =============================================================================
